@@ -31,8 +31,8 @@ CALLS = [
     ('hs_flj',   'hungarian', "athlib.hungarian_score('F', 'OUT', 'LJ', 6.0)"),
     ('hs_last',  'hungarian', "athlib.hungarian_score('F', 'IND', 'TJ', 13.0)"),
     ('hs_unk',   'hungarian', "athlib.hungarian_score('M', 'IND', '100', 10.5)"),
-    ('sh_slj',   'sportshall', "athlib.sportshall_score('SLJ', '2.0')"),
-    ('sh_100',   'sportshall', "athlib.sportshall_score('100', '25.0')"),
+    ('sh_slj',   'sportshall', "athlib.sportshall_score('SLJ', '2.83')"),       # beyond the table: computed from the increment
+    ('sh_100',   'sportshall', "athlib.sportshall_score('100', '23.3')"),
     ('sh_unk',   'sportshall', "athlib.sportshall_score('XXX', '1')"),
     ('af_m100',  'wma', "athlib.wma_age_factor('M', 50, '100')"),
     ('af_f5k',   'wma', "athlib.wma_age_factor('F', 62, '5K')"),
@@ -327,7 +327,32 @@ def first_call_check(ctx, w, case, seen_fail):
     seq = [fresh({'names': [case.names[i]], 'order': [0], 'seq': True})[0] for i in range(n)]
     ctx.count(n, 'fresh_interpreter_runs')
     if list(case.solo) == seq:
-        return 0
+        # the restore looks right from outside; state it cannot see (keys added to shared rows, per-thread settings made by
+        # whoever built a table) may still differ: a spread of schedules is run in really fresh interpreters as well
+        scheds = case.schedules(1, ctx.rng, 0)
+        pick = scheds[::max(1, len(scheds) // 16)][:18]
+        specs = [{'names': case.names, 'order': list(order), 'directives': [[d[0], w.rel(d[1][0]), d[1][1], d[2], d[3]] for d in directives]} for directives, order in pick]
+        allowed = {tuple(fresh({'names': case.names, 'order': list(perm), 'seq': True})) for perm in itertools.permutations(range(n))}
+        from concurrent.futures import ThreadPoolExecutor
+        with ThreadPoolExecutor(max_workers=min(16, os.cpu_count() or 4)) as ex:
+            results = list(ex.map(fresh, specs))
+        ctx.count(len(specs), 'fresh_interpreter_runs')
+        nbad = 0
+        for sp, res in zip(specs, results):
+            res = tuple(res)
+            if res in allowed: continue
+            nbad += 1
+            sig = ('fresh', tuple(case.names))
+            if sig in seen_fail: continue
+            seen_fail.add(sig)
+            ref = sorted(allowed)[0]
+            ctx.fail('concurrent ' + ' || '.join(CALL[x][2] for x in case.names),
+                     {'variant': 'first call in a fresh interpreter', 'threads': [CALL[x][2] for x in case.names], 'schedule': sp['directives'], 'start_order': sp['order']},
+                     '; '.join('thread %d: %s' % (k, ref[k]) for k in range(n)), '; '.join('thread %d: %s' % (k, res[k]) for k in range(n)),
+                     note='first calls in a fresh interpreter: the joint result is not that of any single-threaded order',
+                     replay_py='from checks import c16\nresult = c16.fresh(%r)' % (sp,))
+        ctx.stats['violating_schedules'] = ctx.stats.get('violating_schedules', 0) + nbad
+        return nbad
     ctx.notes.append('first-call state of %s cannot be re-created in-process (restored: %r, fresh interpreter: %r): schedules run in fresh interpreters' % (case.names, case.solo, seq))
     allowed = set()
     for perm in itertools.permutations(range(n)):
@@ -421,7 +446,7 @@ def explore(ctx, w, names, variant, npre, cap, seen_fail):
 
 
 # cases whose in-process 'first' state is cross-checked against fresh interpreters (one per group of lazily built state)
-FRESH_CHECKED = {('as_m100', 'as_flj'), ('hs_m100', 'hs_flj'), ('sh_slj', 'sh_100'), ('af_m100', 'af_f5k'), ('af15_m100', 'af15_f5k'),
+FRESH_CHECKED = {('as_m100', 'as_flj'), ('as_flj', 'ap_m100'), ('hs_m100', 'hs_flj'), ('sh_slj', 'sh_100'), ('af_m100', 'af_f5k'), ('af15_m100', 'af15_f5k'),
                  ('aaf_m60h', 'aaf_flj'), ('sv_meta', 'sv_perf'), ('vs_ath', 'vs_perf')}
 
 
